@@ -8,7 +8,11 @@ from d42.migration.migrate_v1_to_v2 import mapping, rewrite_imports
 
 MODULE = "D42.Props.C19"
 THEOREMS = ["D42.Gen.Migration.mapping_importable", "D42.Gen.Migration.mapping_keeps_names",
-            "D42.Gen.Migration.mapping_modules_distinct", "D42.Gen.Migration.entries_count"]
+            "D42.Gen.Migration.mapping_modules_distinct", "D42.Gen.Migration.entries_count",
+            "D42.Migrate.rewrite_none", "D42.Migrate.rewrite_some", "D42.Migrate.splitLines_flatten",
+            "D42.Migrate.splitLines_no_inner_newline", "D42.Migrate.replacement_binds_same_locals",
+            "D42.Migrate.replacementLines_shape", "D42.Migrate.applyOne_whole_lines",
+            "D42.Migrate.applyOne_preserves_prefix", "D42.Migrate.applyOne_preserves_suffix"]
 FILES = ["D42/Model/Migrate.lean", "D42/Gen/Migration.lean", "D42/Props/C19.lean"]
 
 EVIDENCE = dict(
